@@ -103,12 +103,33 @@ def gen_scn(r, k, forced=None):
     p_save = f.get("p_save", r.choice([0.0, 0.0, 0.08]))
     p_restart = f.get("p_restart", r.choice([0.0, 0.0, 0.06]))
     can_rebin = use_grids and c["keep"] and not any(v["expand"] for v in vars_) and not c["eb"]
+    can_rebin_grids = use_grids and not c["keep"] and not c["eb"]
     events = []
     prev = None
     cur = [dict(lower=v["lower"], upper=v["upper"], nx=v["nx"]) for v in vars_]   # current boundaries of the configuration
     for s in range(nsteps):
         if s > 0 and r.random() < p_restart:
-            if can_rebin and r.random() < 0.5:
+            m = r.random()
+            if m < 0.25:
+                events.append(("reload",))
+            elif can_rebin_grids and m < 0.6:
+                # rebinning from the grids of the state (no keepHills): the current grids extended by whole bins where
+                # expandBoundaries allows (40 bins: beyond any expansion these histories can reach)
+                g = []
+                for v, b in zip(vars_, cur):
+                    lo, up = b["lower"], b["upper"]
+                    if v["expand"]:
+                        lo, up = v["lower"], v["upper"]
+                        if not v["hlo"]:
+                            lo -= 40 * v["w"]
+                        if not v["hup"]:
+                            up += 40 * v["w"]
+                    nx = int(round((up - lo) / v["w"]))
+                    b.update(lower=lo, upper=up, nx=nx)
+                    g.append((nx, lo, up))
+                events.append(("rebin", g))
+                can_rebin_grids = False      # once: a second extension would have to know the expansions since
+            elif can_rebin and r.random() < 0.5:
                 g = []
                 for v, b in zip(vars_, cur):
                     lo = b["lower"] + r.randint(-3, 3) * v["w"] / 2
@@ -165,7 +186,7 @@ def gen_scn(r, k, forced=None):
             if v["periodic"] and r.random() < 0.3:
                 z += r.randint(-2, 2) * v["P"]
             zs.append(z)
-        if events and events[-1][0] in ("restart", "rebin"):
+        if events and events[-1][0] in ("restart", "rebin", "reload"):
             zs = last_zs         # a resumed run starts from the configuration at which the state was written
         last_zs = zs
         prev = [(wrap_exact(z, v["c"], v["P"]) if v["periodic"] else z) for z, v in zip(zs, vars_)]
@@ -174,6 +195,8 @@ def gen_scn(r, k, forced=None):
             events.append(("save",))
         if events and events[-1][0] in ("restart", "rebin"):
             boundary = False
+        if events and events[-1][0] == "reload":
+            boundary = True          # the step at which the state was written is computed again
         events.append(("step", boundary, zs))
     c["events"] = events
     return c
@@ -193,6 +216,9 @@ def steps_of(c):
         if e[0] in ("restart", "rebin"):
             run_start = it          # the fresh instance resumes at the step of the state
             first = True
+            continue
+        if e[0] == "reload":
+            run_start = it          # the same instance: relative steps restart, the next step is not a first step
             continue
         if e[0] != "step":
             continue
@@ -325,6 +351,10 @@ def scenario_text(c, dump=True):
         if e[0] == "save":
             L.append("save text c05.state")
             continue
+        if e[0] == "reload":
+            nstate += 1
+            L += ["save text c05l%d.state" % nstate, "load c05l%d.state" % nstate]
+            continue
         if e[0] in ("restart", "rebin"):
             # the state is written, a fresh instance reads it (for "rebin": with new boundaries and rebinGrids on)
             nstate += 1
@@ -373,6 +403,9 @@ def model_case(c, xs, dump=True):
             continue
         if e[0] == "restart":
             p.append("R")
+            continue
+        if e[0] == "reload":
+            p.append("L")
             continue
         if e[0] == "rebin":
             p.append("B")
@@ -539,7 +572,7 @@ def hills_close(a, b, exact=True):
 
 
 def has_restart(c):
-    return any(e[0] in ("restart", "rebin") for e in c["events"])
+    return any(e[0] in ("restart", "rebin", "reload") for e in c["events"])
 
 
 def vec_close(a, b):
@@ -698,7 +731,7 @@ def oracle(c, impl, traj):
     st = steps_of(c)
     tab, pend = [], []
     facts = {"deposits": 0, "projections": 0, "outside_steps": 0, "expansions": 0, "saves": 0, "wt_outside": 0,
-             "wrapped_steps": 0, "restarts": 0, "rebins": 0, "antipodal_steps": 0, "ebmeta_deposits": 0}
+             "wrapped_steps": 0, "restarts": 0, "rebins": 0, "antipodal_steps": 0, "ebmeta_deposits": 0, "reloads": 0, "rebins_from_grids": 0}
     restarted = False
     off_at_restart = []
     lingering = False      # after a restart without keepHills the hills near the edges stay listed until the next projection
@@ -716,8 +749,10 @@ def oracle(c, impl, traj):
                 tab += pend
                 pend = []
             continue
-        if e[0] in ("restart", "rebin"):
+        if e[0] in ("restart", "rebin", "reload"):
             facts["restarts"] += 1
+            if e[0] == "reload":
+                facts["reloads"] += 1
             restarted = True
             off_at_restart = list(impl[n]["off"]) if n >= 0 else []
             if c["use_grids"]:
@@ -728,6 +763,8 @@ def oracle(c, impl, traj):
                 lingering = not c["keep"]
                 if e[0] == "rebin":
                     facts["rebins"] += 1
+                    if not c["keep"]:
+                        facts["rebins_from_grids"] += 1
                     prev_geom = [tuple(g) for g in e[1]]
             continue
         n += 1
@@ -922,6 +959,12 @@ def witnesses():
         _cfg("w_restart_nogrid", [_var()], [[0.5], [0.5], [0.5], [-0.25], "restart", [-0.25], [0.5]], use_grids=False),
         _cfg("w_restart_grid", [_var()], [[0.5], [0.5], [0.5], [-0.25], "restart", [-0.25], [0.5]]),
         _cfg("w_restart_twice", [_var()], [[0.5], [0.5], "restart", [0.5], [-0.25], "restart", [-0.25], [0.5]], keep=True),
+        # the state read back by the same instance (pre-existing hills pruned), with and without grids
+        _cfg("w_reload_model", [_var()], [[0.5], [0.5], [0.5], [-0.25], "reload", ("step", True, [-0.25]), [0.5], [-0.5]]),
+        _cfg("w_reload_model_nogrid", [_var()], [[0.5], [0.5], [-0.25], "reload", ("step", True, [-0.25]), [0.5]], use_grids=False),
+        # rebinGrids without keepHills (map_grid) onto the expanded grid extended by whole bins: expandBoundaries, hillWidth 2:
+        # the grid [0,8) becomes [-4,11) at the first step; new boundaries [-6,13)
+        _cfg("w_rebin_from_grids", [_var(expand=True)], [[3.5], [3.5], [4.5], ("rebin", [(19, -6.0, 13.0)]), [4.5], [-5.5], [12.25]]),
         # restart with rebinGrids from the kept hills onto a shifted, larger grid
         _cfg("w_rebin", [_var()], [[0.5], [1.5], [3.25], ("rebin", [(12, -2.5, 9.5)]), [3.25], [-0.75], [9.75]], keep=True),
         # ebMeta: ramp during 3 steps, hills inside, beyond both boundaries (closest edge bin), with well-tempered
@@ -1009,7 +1052,7 @@ def check_one(run, c, impl, mo, txt, rcv, o, traj, mline):
     run.dist("unit_vector_vars", sum(1 for v in c["vars"] if v["kind"] == 2))
     run.dist("quaternion_vars", sum(1 for v in c["vars"] if v["kind"] == 3))
     run.dist("steps", len(impl))
-    for kk in ("deposits", "projections", "outside_steps", "expansions", "saves", "wt_outside", "wrapped_steps", "restarts", "rebins", "antipodal_steps", "ebmeta_deposits"):
+    for kk in ("deposits", "projections", "outside_steps", "expansions", "saves", "wt_outside", "wrapped_steps", "restarts", "rebins", "antipodal_steps", "ebmeta_deposits", "reloads", "rebins_from_grids"):
         run.dist(kk, facts[kk])
     if bad:
         sig, text, n = bad
